@@ -28,6 +28,10 @@ impl Parsable for FileLocation {
                 Some(t) => t,
             };
             if let token::Value::Space(_) = t.value() {
+                // Blank spaces in front of the file name are skipped (TeX.2021.526).
+                if raw_string.is_empty() {
+                    continue;
+                }
                 break;
             }
             let c = match t.char() {
